@@ -7,6 +7,7 @@ import (
 	"os"
 	"runtime"
 	"runtime/debug"
+	"runtime/pprof"
 	"sort"
 	"time"
 )
@@ -109,9 +110,14 @@ func ChildMain(sims map[string]SimFunc) bool {
 	}
 	runtime.GOMAXPROCS(sp.Procs)
 	debug.SetGCPercent(400)
-	out := &Out{Sim: sp.Sim, Faults: map[string]int{}, Probes: map[string]int{}}
+	out := &Out{Sim: sp.Sim, Faults: map[string]int{}, Probes: map[string]int{}, Extra: map[string]int64{}}
 	start := time.Now()
 	finish := func(code int) {
+		if mp := os.Getenv("VERIF_MEMPROF"); mp != "" {
+			fh, _ := os.Create(mp)
+			pprof.Lookup("allocs").WriteTo(fh, 0)
+			fh.Close()
+		}
 		out.WallMs = time.Since(start).Milliseconds()
 		b, _ := json.Marshal(out)
 		if err := os.WriteFile(sp.Out, b, 0o644); err != nil {
@@ -121,6 +127,14 @@ func ChildMain(sims map[string]SimFunc) bool {
 		os.Exit(code)
 	}
 	if sp.Mode == "replay" {
+		if mp := os.Getenv("VERIF_MEMPROF"); mp != "" {
+			runtime.MemProfileRate = 1
+			defer func() {
+				fh, _ := os.Create(mp)
+				pprof.Lookup("allocs").WriteTo(fh, 0)
+				fh.Close()
+			}()
+		}
 		c := RunOne(f, ReplayTape(sp.Tape), sp.Tier, true)
 		out.Runs = 1
 		if c.Bug != "" {
@@ -164,7 +178,11 @@ func ChildMain(sims map[string]SimFunc) bool {
 		}
 		tseed := Mix(sp.Seed, simh, uint64(run))
 		keep := out.Runs < 2
+		t0 := time.Now()
 		c := RunOne(f, NewTape(tseed), sp.Tier, keep)
+		if d := time.Since(t0).Milliseconds(); d > out.Extra["max_run_ms"] {
+			out.Extra["max_run_ms"], out.Extra["max_run_index"] = d, int64(run)
+		}
 		out.Runs++
 		out.Events += int64(c.Events)
 		out.TapeVals += int64(len(c.Rec))
